@@ -6,8 +6,8 @@ from .. import pipeline as P
 PROP = "C06"
 LEVEL = "exploration"
 BACKENDS = [("inplace", [0]), ("ir", [0, 2]), ("bc", [0, 1, 2, 3]), ("jit", [0, 1, 2, 3])]
-COUNTS_QUICK = {"stridescan": 30, "roam": 120, "uniform": 100, "macro": 40, "affine": 30, "pressure": 10}
-COUNTS_THOROUGH = {"stridescan": 600, "roam": 3000, "uniform": 2000, "macro": 1000, "affine": 500, "pressure": 200}
+COUNTS_QUICK = {"ifedge": 30, "stridescan": 30, "roam": 120, "uniform": 100, "macro": 40, "affine": 30, "pressure": 10}
+COUNTS_THOROUGH = {"ifedge": 500, "stridescan": 600, "roam": 3000, "uniform": 2000, "macro": 1000, "affine": 500, "pressure": 200}
 
 
 def gen_protocol(r):
